@@ -514,6 +514,8 @@ class PseudoNetCDFFile(PseudoNetCDFSelfReg, object):
             out = np.interp(x, xp, idx, left=np.nan, right=np.nan)
             if index:
                 out = np.ma.masked_less(np.ma.floor(out).astype('i'), 0)
+                # the last edge closes the last cell; it is not a cell itself
+                out = np.ma.minimum(out, idx[-1] - 1)
 
         return out
 
